@@ -24,7 +24,7 @@ RULE = ('Hypothesis **kern scores of C07\'s domain (kern-only, 1-3 spines, pick-
         'deep snapshot and six exports equal those of loads(joined text); one (from, to) pair per fragment; consecutive '
         'pairs (next from = to + 1); first from in {0, 1}; last to == measures_count(); the data lines of '
         'dumps(doc, from_measure=from, to_measure=to) are exactly the exported lines of the rows of fragment i (row '
-        'alignment from the model).  An evaluation is one (document, cut set, convention); non-trivial: >=3 fragments and '
+        'alignment from the model).  Scores without any measure (header, interpretations, terminator) are concatenated as a single fragment: one pair, to == 0, exportable.  An evaluation is one (document, cut set, convention); non-trivial: >=3 fragments and '
         'a fragment with >=2 measures.')
 ASSUMPTIONS = ['measure model of C07 (kv/measures.py)', 'a "data line" is a line that is neither an interpretation nor a barline',
                'a first fragment that contains no measure at all (preamble only) makes concat raise: known finding '
@@ -167,6 +167,36 @@ def check_case(case, exhaustive):
     return r
 
 
+def check_measureless(case):
+    """a score without any measure (header, interpretations, terminator) is a valid score all the same: as the only
+    fragment it concatenates to itself, gets one pair whose 'to' is the measure count (0), and that pair can be exported"""
+    text = S.render(case['doc'])
+    evals = 0
+    for sep in ('\n', ''):
+        tag = f'measure-less score as the only fragment, separator {sep!r}'
+        try:
+            cdoc, pairs = kp.concat([text], separator=sep)
+        except Exception as e:  # noqa
+            raise Bad('concat-raised', f'concat raised {type(e).__name__}: {e} ({tag})\n{text}')
+        evals += 1
+        rdoc, _ = kp.loads(sep + text)
+        d = SN.first_difference(SN.snapshot(rdoc), SN.snapshot(cdoc))
+        if d:
+            raise Bad('document-differs', f'concat document differs from loads(joined): {d} ({tag})')
+        if len(pairs) != 1 or pairs[0][1] != len(cdoc.measure_start_tree_stages) or pairs[0][0] not in (0, 1):
+            raise Bad('pairs', f'pairs {pairs} for one fragment and {len(cdoc.measure_start_tree_stages)} measures ({tag})')
+        lo, hi = pairs[0]
+        if hi >= lo:
+            try:
+                ex = kp.dumps(cdoc, from_measure=lo, to_measure=hi)
+            except Exception as e:  # noqa
+                raise Bad('pair-export-raised', f'dumps(from_measure={lo}, to_measure={hi}) raised {e!r} ({tag}, pairs {pairs})\n{text}')
+            got_lines = ['\t'.join(c) for c in K.grid(ex) if not MS.is_interp_line(c) and not c[0].startswith('=') and not c[0].startswith('!')]
+            if got_lines:
+                raise Bad('pair-lines', f'pair {pairs[0]} exports data lines {got_lines}; the fragment has none ({tag})')
+    return Result(nontrivial=len(case['doc']['rows']) > 2, evals=evals, classes=['measureless'], sample={'document': text})
+
+
 def f_nomeasure(case, p):
     """KF-C19-NOMEASURE: the first fragment holds no measure at all (preamble only), so measures_count() of the first
     prefix raises Exception('No measures found') inside concat"""
@@ -178,6 +208,8 @@ FINDINGS = {'KF-C19-NOMEASURE': f_nomeasure}
 
 
 def run(ctx):
+    from .c07 import measureless_cases
+    ctx.run_hypothesis(measureless_cases(), check_measureless, max_examples=max(4, (16 if ctx.quick else 160) // ctx.nshards), salt=3, label='measureless')
     if ctx.quick:
         ctx.run_hypothesis(cases(), lambda c: check_case(c, False), max_examples=max(8, 100 // ctx.nshards), label='concat')
     else:
@@ -185,4 +217,6 @@ def run(ctx):
 
 
 def replay(case):
+    if case['doc'].get('profile') == 'measureless':
+        return check_measureless(case)
     return check_case(case, True)
